@@ -193,7 +193,7 @@ def judge(st: St, G0, kind, crs, fails: dict, initial_shape):
     gx, gy = g.pix2wld(jj + 0.5, ii + 0.5)
     ox, oy = G0.pix2wld(np.asarray(cols)[jj] + 0.5, np.asarray(rows)[ii] + 0.5)
     px = abs(base_affine("north-up", crs).a)
-    tol = 1e-6 * px if kind == "gcp" else 1e-9 * (np.maximum(np.abs(ox), np.abs(oy)) + px)
+    tol = 1e-6 * px if kind == "gcp" else loc_tol(np.maximum(np.abs(ox), np.abs(oy)), px)
     err = np.maximum(np.abs(np.asarray(gx) - ox), np.abs(np.asarray(gy) - oy))
     if not np.all(err <= tol):
         i = np.unravel_index(np.argmax(err), err.shape)
@@ -209,7 +209,7 @@ def judge(st: St, G0, kind, crs, fails: dict, initial_shape):
         _, ly = G0.pix2wld(np.zeros(ny) + 0.5, np.asarray(rows) + 0.5)
     else:
         lx, ly = np.asarray(cols) + 0.5, np.asarray(rows) + 0.5
-    if not (np.allclose(xl, lx, rtol=0, atol=1e-9 * (abs(lx).max() + px)) and np.allclose(yl, ly, rtol=0, atol=1e-9 * (abs(ly).max() + px))):
+    if not (np.allclose(xl, lx, rtol=0, atol=loc_tol(abs(lx).max(), px)) and np.allclose(yl, ly, rtol=0, atol=loc_tol(abs(ly).max(), px))):
         fails.setdefault(f"labels:{cls}", f"{what}: coordinate labels x={xl.tolist()} y={yl.tolist()} expected x={np.asarray(lx).tolist()} y={np.asarray(ly).tolist()}")
     return "ok"
 
@@ -270,6 +270,12 @@ def run_bfs(case):
     return r
 
 
+def loc_tol(coord, px):
+    """R tolerance for a recovered world location: coordinate labels are float64 values of magnitude |coord|, the
+    transform is re-derived from first/last label, so a few hundred ulps of the coordinate plus 1e-9 pixel."""
+    return 1e-13 * np.abs(coord) + 1e-9 * px
+
+
 def gb_close(a, b):
     """GeoBox equality with the R tolerance of DESIGN section 3 (used where coefficients are not dyadic:
     labels are regenerated as first + i*step, which moves coefficients by an ulp)."""
@@ -277,8 +283,10 @@ def gb_close(a, b):
         return False
     px = max(abs(b.affine.a), abs(b.affine.b), abs(b.affine.d), abs(b.affine.e))
     n = max(b.shape)
+    cmax = max(abs(b.affine.c), abs(b.affine.f))
     for i, (u, v) in enumerate(zip(a.affine[:6], b.affine[:6])):
-        tol = 1e-9 * (abs(v) + px) if i in (2, 5) else 1e-9 * px / n
+        # pixel size is (last label - first label)/(n-1): it inherits the labels' rounding (ulps of the coordinate)
+        tol = loc_tol(abs(v), px) if i in (2, 5) else max(1e-9 * px, 1e-13 * cmax) / n
         if abs(u - v) > tol:
             return False
     return True
@@ -313,6 +321,27 @@ PAIRS = (("EPSG:3857", "EPSG:4326"), ("EPSG:4326", "EPSG:3857"), ("EPSG:32633", 
          ("EPSG:3857", "EPSG:32633"), ("EPSG:32633", "EPSG:3857"))
 
 
+def reproject_options(opt, dst):
+    """Grid options that may accompany a CRS destination; values sized to the destination's units."""
+    deg = dst == "EPSG:4326"
+    return {
+        "resolution": dict(resolution=0.5 if deg else 4096.0),
+        "resolution-fine": dict(resolution=0.125 if deg else 512.0),
+        "shape": dict(shape=(5, 7)),
+        "tight": dict(tight=True),
+        "anchor-center": dict(anchor="center"),
+        "anchor-floating": dict(anchor="floating"),
+        "res+tight": dict(resolution=0.5 if deg else 4096.0, tight=True),
+        "res+center": dict(resolution=0.5 if deg else 4096.0, anchor="center"),
+        "tol": dict(tol=0.3),
+        "no-round": dict(round_resolution=False),
+    }[opt]
+
+
+OPTS = ("resolution", "resolution-fine", "shape", "tight", "anchor-center", "anchor-floating", "res+tight", "res+center",
+        "tol", "no-round")
+
+
 def gen_reproject(tier):
     def g():
         for src, dst in PAIRS:
@@ -322,6 +351,10 @@ def gen_reproject(tier):
                         for layout in ("yx", "tyx"):
                             for crsname in ("spatial_ref", "crs_custom"):
                                 yield (src, dst, container, how, backend, layout, crsname)
+                # destination requested as CRS + grid options (resolution / shape / tight / anchor)
+                for opt in OPTS:
+                    for backend in BACKENDS:
+                        yield (src, dst, container, "crs+" + opt, backend, "yx", "spatial_ref")
 
     return g
 
@@ -343,19 +376,26 @@ def run_reproject(case):
     xx = wrap_xr(data, G, time=tm, nodata=-1.0, crs_coord_name=crsname)
     stale = {"crs": "EPSG:9999", "crs_wkt": "stale", "grid_mapping": "spatial_ref", "epsg": 9999, "units": "m"}
     xx.attrs.update(stale)
+    kwopt = {}
     if how == "crs":
         target = dst
         want = xx.odc.output_geobox(dst)
+    elif how.startswith("crs+"):
+        kwopt = reproject_options(how[4:], dst)
+        target = dst
+        want = xx.odc.output_geobox(dst, **kwopt)
+        default = xx.odc.output_geobox(dst)
+        r.outcome += ":opt-differs" if want != default else ":opt-same-as-default"
     else:
         want = GeoBox((7, 6), G.to_crs(dst).affine * Affine.translation(1, 1), dst)
         target = want
     if container == "da":
-        out = xr_reproject(xx, target)
+        out = xr_reproject(xx, target, **kwopt)
         outs = {"da": out}
     else:
         ds = xr.Dataset({"a": xx, "b": xx * 2, "plain": xr.DataArray([1, 2, 3], dims=("z",))})
         ds["b"].attrs.update(stale)
-        out = xr_reproject(ds, target)
+        out = xr_reproject(ds, target, **kwopt)
         outs = {"a": out["a"], "b": out["b"], "ds": out}
         if "plain" not in out or out["plain"].values.tolist() != [1, 2, 3]:
             r.fail("reproject:ds:non-geo-variable-lost", f"{case}")
@@ -363,7 +403,7 @@ def run_reproject(case):
         what = f"{case} [{name}]"
         g = o.odc.geobox
         if g is None or not (g == want or gb_close(g, want)):
-            r.fail(f"reproject:{container}:geobox", f"{what}: recovered {g!r}, destination {want!r}")
+            r.fail(f"reproject:{container}:geobox" + (":with-grid-options" if kwopt else ""), f"{what}: recovered {g!r}, destination {want!r}")
             continue
         if g.crs != CRS(dst) or o.odc.crs != CRS(dst):
             r.fail(f"reproject:{container}:crs", f"{what}: {g.crs}")
@@ -458,11 +498,93 @@ def run_family(case):
     return r
 
 
+# -- registration: where on the coordinate axis the grid sits ----------------------------------------------------------
+REG_PIXELS = (1 / 3600, 1e-4, 0.25, 1.0, 10.0, 16.0, 4.5e-6)
+REG_WHOLE = (0.0, 149.0, -35.0, 500000.0)
+REG_OFFSETS = ("on", "+4e-4", "-4e-4", "+9e-4", "-9e-4", "+1e-6", "-1e-6", "centre-registered", "+quarter", "+1.5e-3")
+REG_OPS = ("none", "y1:", "x2:", "y::2", "x3:7", "y-3:", "x::-1", "y1:|x2:", "x2:|x2:")
+
+
+def _reg_origin(whole, off, px):
+    if off == "on":
+        return whole
+    if off == "centre-registered":
+        return whole - px / 2  # pixel centres on whole numbers: edges half a pixel away
+    if off == "+quarter":
+        return whole + 0.25
+    return whole + float(off)
+
+
+def gen_registration(tier):
+    def g():
+        for px in REG_PIXELS:
+            for wx in REG_WHOLE:
+                for offx in REG_OFFSETS:
+                    for offy in (("on", "-4e-4", "centre-registered") if tier == "quick" else REG_OFFSETS):
+                        for flip in ("north-up", "south-up"):
+                            yield (px, wx, offx, offy, flip)
+
+    return g
+
+
+def run_registration(case):
+    """Axis-aligned GeoBoxes placed on / very near / half a pixel from whole coordinates, wrapped and sliced: the
+    recovered GeoBox must equal the original (round trip) and keep every surviving pixel where it was."""
+    px, whole, offx, offy, flip = case
+    crs = "EPSG:4326" if abs(whole) < 400 and px < 2 else "EPSG:32633"
+    ox = _reg_origin(whole, offx, px)
+    oy = _reg_origin(-35.0 if crs == "EPSG:4326" else 6000000.0, offy, px)
+    A = Affine(px, 0, ox, 0, -px, oy) if flip == "north-up" else Affine(px, 0, ox, 0, px, oy)
+    shape = (9, 10)
+    G0 = GeoBox(shape, A, crs)
+    xx = wrap_xr(np.zeros(shape, dtype="uint8"), G0)
+    ydim, xdim = xx.odc.spatial_dims
+    near = lambda o: o not in ("on", "+quarter", "+1.5e-3")  # noqa: E731
+    cls = f"x-{'near-whole' if near(offx) else 'plain'}:y-{'near-whole' if near(offy) else 'plain'}"
+    r = R(outcome=f"registration:{cls}:{flip}")
+    sl = {"y1:": {ydim: slice(1, None)}, "x2:": {xdim: slice(2, None)}, "y::2": {ydim: slice(None, None, 2)},
+          "x3:7": {xdim: slice(3, 7)}, "y-3:": {ydim: slice(-3, None)}, "x::-1": {xdim: slice(None, None, -1)}}
+    for ops in REG_OPS:
+        yy = xx
+        rows, cols = np.arange(shape[0]), np.arange(shape[1])
+        if ops != "none":
+            for o in ops.split("|"):
+                yy = yy.isel(sl[o])
+                (ax, s_), = sl[o].items()
+                if ax == ydim:
+                    rows = rows[s_]
+                else:
+                    cols = cols[s_]
+        what = f"pixel={px!r} origin=({ox!r},{oy!r}) {flip} crs={crs} ops={ops}"
+        try:
+            g = yy.odc.geobox
+        except Exception as e:  # pylint: disable=broad-except
+            if not core.in_repo_tb(e):
+                raise
+            r.fail(f"registration:raised:{type(e).__name__}:{cls}", f"{what}: {e}")
+            continue
+        if g is None or tuple(g.shape) != (len(rows), len(cols)):
+            r.fail(f"registration:recover:{cls}", f"{what}: recovered {g!r}")
+            continue
+        if ops == "none" and not (g == G0 or gb_close(g, G0)):
+            r.fail(f"registration:roundtrip-unequal:{cls}", f"{what}: recovered {g!r} != original {G0!r}")
+        jj, ii = np.meshgrid(np.arange(len(cols)), np.arange(len(rows)))
+        gx, gy = g.pix2wld(jj + 0.5, ii + 0.5)
+        wx_, wy_ = G0.pix2wld(cols[jj] + 0.5, rows[ii] + 0.5)
+        err = np.maximum(np.abs(np.asarray(gx) - wx_) - loc_tol(wx_, px), np.abs(np.asarray(gy) - wy_) - loc_tol(wy_, px))
+        if err.max() > 0:
+            e_px = max(np.abs(np.asarray(gx) - wx_).max(), np.abs(np.asarray(gy) - wy_).max()) / px
+            r.fail(f"registration:location:{cls}", f"{what}: surviving pixels moved by up to {e_px:.4g} px")
+    return r
+
+
 def slices(tier):
     return [
         e1.Slice("shared-state-family", gen_family(tier), run_family, "all ordered pairs (thorough: triples) of wraps of GeoBoxes derived from one parent"),
         e1.Slice("ops-bfs", gen_bfs(tier), run_bfs, "BFS over operation sequences per initial array", shards=128),
-        e1.Slice("reproject", gen_reproject(tier), run_reproject, "DataArray/Dataset x CRS pairs x target kind x backend"),
+        e1.Slice("reproject", gen_reproject(tier), run_reproject, "DataArray/Dataset x CRS pairs x target kind (GeoBox, CRS, CRS + each grid option) x backend"),
+        e1.Slice("registration", gen_registration(tier), run_registration,
+                 "axis-aligned grids on / within 1e-3 of / half a pixel from whole coordinates x pixel sizes 4.5e-6..16 x slicing ops"),
     ]
 
 
@@ -477,7 +599,8 @@ def main(ctx):
     ctx.assumptions = [
         "locations are compared at pixel centres (for a single remaining pixel after striding the pixel size is not determinable)",
         "without a CRS, arrays with a single row or column are outside the property's domain",
-        "R tolerance 1e-9*(|coordinate| + pixel) for affine GeoBoxes, 1e-6 pixel for GCP GeoBoxes (polynomial re-fit)",
+        "R tolerance 1e-13*|coordinate| + 1e-9*pixel for affine GeoBoxes (labels are float64 coordinates; the transform is "
+        "re-derived from them), 1e-6 pixel for GCP GeoBoxes (polynomial re-fit)",
     ]
     sl = slices(ctx.tier)
     if ctx.only:
